@@ -6,6 +6,8 @@ CONSTANTS
   BgSeq <- TC0
   Fixed = {}
   Budget = 0
+  Unbuffered = {}
+  SrcOver <- NoOver
   Allowed <- TAny
 CONSTRAINT HighWater
 POSTCONDITION TraceAccepted
